@@ -7,6 +7,8 @@ CONSTANTS
   NHosts = 2
   MaxOps = 4
   StoreUnderReadLock = @STOREUNDERREAD@
+  ReopenForgetsKs = FALSE
+  FailKeepsLock = FALSE
   SelectIgnoresFailure = @SELECTIGNORES@
 PROPERTIES TableWriteExclusive
 CHECK_DEADLOCK FALSE
